@@ -417,6 +417,7 @@ func propC06(w *World, r *Report, tier string) {
 		checkZucDriver(c, n)
 	}
 	checkCipherCallers(c)
+	checkDriverLength(c)
 	checkCipherPurity(c, [][2]string{{"security", "NASEncrypt"}, {"security", "NEA1"}, {"security", "NEA2"}, {"security", "NEA3"}, {"security/snow3g", "GetKeyStream"}, {"security/zuc", "Zuc"}})
 	checkNEA(c, tier)
 	checkWrapper(c, "NASEncrypt", map[int]string{1: "NEA1", 2: "NEA2", 3: "NEA3"}, 0)
